@@ -95,4 +95,4 @@ Check eq_refl : in_domain (CSeq Spot (mkSeq 0 10 10) 11 11 0 (ROk true) (mkSeq 1
 Check eq_refl : judge (CSeq Spot (mkSeq 0 10 10) 11 11 0 (ROk true) (mkSeq 1 11 10)) = 0%N.
 Check eq_refl : judge (CSeq Spot (mkSeq 0 10 10) 11 11 0 RDrop (mkSeq 0 10 10)) = 2%N.
 Check eq_refl : judge (CCrash 1) = 2%N.
-Check eq_refl : in_domain (CStream Spot [mkI 0 10 0 None [] [] []; mkI 0 11 0 None [] [] []] [] [] []) = false.
+Check eq_refl : in_domain (CStream Spot [mkI 0 10 0 0 None [] [] []; mkI 0 11 0 0 None [] [] []] [] [] []) = false.
